@@ -67,7 +67,7 @@ def generate(rng, tier):
                     if first <= i < first + cnt:
                         j = rng.randint(first, first + cnt - 1)
                         out.append({'op': 'index', 'ch': r['ch'], 'i': j if rng.random() < 0.7 else j - n})
-    return {'spec': spec, 'raw_ts': rng.random() < 0.3, 'ops': out}
+    return {'spec': spec, 'raw_ts': rng.random() < 0.3, 'ops': out, 'debug_log': rng.random() < 0.05}
 
 
 def merge(iv):
@@ -146,7 +146,7 @@ def execute(case):
     w = build(spec)
     from .c04 import _sig
     res.sig = [_sig(spec), sorted(set(o['op'] for o in case['ops']))]
-    with store(record=True) as st:
+    with store(record=True) as st, lib.knobs(debug_log=case.get('debug_log', False)):
         st.put('w.tdms', w.data)
         try:
             tf = lib.TdmsFile.open(st.source('simstream', 'w.tdms'), raw_timestamps=case['raw_ts'])
